@@ -274,6 +274,125 @@ def initial_points_case(rng):
     return out
 
 
+# ------------------------------------------------------------------ the real SIGINT handler (C05)
+def signal_case(rng):
+    """Solve() with `enable_signal_handler()`: SIGINT is delivered to this process from inside a chosen cost call, the
+    handler's prompt is answered from a script.  Checked: the handler's dialogue against the Lean model (inputs read,
+    callback invocations, exit flag), and the property: after `exit` no further iteration is begun and the stop message
+    names the interrupt (unless a limit is reached as well); after `cont` the run is the uninterrupted one."""
+    import os, signal as _signal, builtins, io, contextlib
+    common.import_mystic()
+    from mystic.solvers import NelderMeadSimplexSolver, PowellDirectionalSolver, DifferentialEvolutionSolver
+    from mystic.termination import VTR
+    out = []
+    which = rng.choice(["NM", "Powell", "DE"])
+    dim = rng.randint(1, 3)
+    cost_spec = solvergen.gen_cost(rng, dim, allow_vector=False)
+    at_call = rng.randint(1, 25)
+    script = [rng.choice(["sol", "call", "bogus", "SOL", "Call"]) for _ in range(rng.randint(0, 3))] + [rng.choice(["exit", "cont", "EXIT", "Cont"])]
+    if rng.random() < 0.15:
+        script = script + ["exit"]          # never read: the dialogue ended before
+    has_cb = rng.random() < 0.6
+    seed = rng.randrange(2 ** 31)
+    x0 = [common.dyadic(rng, -3, 3, 4) for _ in range(dim)]
+    maxiter = rng.choice([None, 6, 12, 40])
+
+    def run(with_signal):
+        _random.seed(seed); np.random.seed(seed)
+        calls = []; state = {"fired": False, "gens_at": None, "calls_at": None, "reads": 0, "cb": 0}
+        if which == "NM":
+            s = NelderMeadSimplexSolver(dim); s.SetInitialPoints(list(x0))
+        elif which == "Powell":
+            s = PowellDirectionalSolver(dim); s.SetInitialPoints(list(x0))
+        else:
+            s = DifferentialEvolutionSolver(dim, 5); s.SetRandomInitialPoints([v - 2.0 for v in x0], [v + 2.0 for v in x0])
+        s.SetEvaluationLimits(maxiter, 4000)
+        s.SetTermination(VTR(1e-300, -1e300))
+        if with_signal:
+            s.enable_signal_handler()
+
+        def cost(x):
+            xv = [float(v) for v in np.ravel(x)]
+            y = dsl.ev(cost_spec[1], xv)
+            calls.append(xv)
+            if with_signal and not state["fired"] and len(calls) == at_call:
+                state["fired"] = True; state["gens_at"] = int(s.generations); state["calls_at"] = len(calls)
+                os.kill(os.getpid(), _signal.SIGINT)       # delivered to the main thread before the next bytecode
+            return y
+        answers = iter(script)
+
+        def fake_input(prompt=""):
+            state["reads"] += 1
+            return next(answers)
+
+        def sigcb(x):
+            state["cb"] += 1
+        old_input = builtins.input; old_handler = _signal.getsignal(_signal.SIGINT)
+        builtins.input = fake_input
+        try:
+            with contextlib.redirect_stdout(io.StringIO()):
+                if has_cb:
+                    s.Solve(cost, sigint_callback=sigcb)
+                else:
+                    s.Solve(cost)
+        finally:
+            builtins.input = old_input
+            _signal.signal(_signal.SIGINT, old_handler)
+        msg = s.Terminated(info=True) or None
+        return s, calls, state, msg
+    try:
+        s, calls, st, msg = run(True)
+    except (StopIteration, RuntimeError) as exc:
+        if isinstance(exc, StopIteration) or "StopIteration" in repr(exc):
+            # the dialogue asked for more input after a `cont` / `exit` answer had been given
+            return [("signal/%s/dialogue-did-not-end" % which, "the handler kept prompting after the script %r (which ends the dialogue)" % (script,), {"script": script})], "sig:script-exhausted", None
+        return [("signal/%s/raises" % which, "Solve with the signal handler raised %r" % (exc,), {"script": script})], "sig:raised", None
+    except Exception as exc:
+        return [("signal/%s/raises" % which, "Solve with the signal handler raised %r" % (exc,), {"script": script})], "sig:raised", None
+    if any(v != v for x in calls for v in x):
+        return [], "sig:nan", None
+    case = {"solver": which, "x0": x0, "cost": dsl.expr_sexp(cost_spec[1]), "at_call": at_call, "script": script, "callback": has_cb,
+            "maxiter": maxiter, "fired": st["fired"], "reads": st["reads"], "cb_calls": st["cb"], "generations": int(s.generations),
+            "gens_at_signal": st["gens_at"], "earlyexit": bool(s._EARLYEXIT), "message": msg}
+    if not st["fired"]:
+        return [], "sig:not-reached", None
+    norm = [t.lower() for t in script]
+    ending = next((t for t in norm if t in ("exit", "cont")), None)
+    tag = "sig:%s:%s" % (which, ending)
+    if ending == "exit":
+        if not s._EARLYEXIT:
+            out.append(("signal/%s/exit-not-requested" % which, "the handler was answered `exit` but _EARLYEXIT is %r" % (s._EARLYEXIT,), case))
+        # the iteration in progress completes; no further one is begun
+        if int(s.generations) > st["gens_at"] + 1:
+            out.append(("signal/%s/iteration-begun-after-exit" % which, "exit requested during generation %d, the solver went on to generation %d" % (st["gens_at"], s.generations), case))
+        lim = (s._maxfun is not None and s.evaluations >= s._maxfun) or (s._maxiter is not None and s.generations >= s._maxiter)
+        if msg is None or not (msg.startswith("SolverInterrupt") or (lim and msg.startswith("EvaluationLimits"))):
+            out.append(("signal/%s/stop-message" % which, "after `exit` the stop message is %r" % (msg,), case))
+    elif ending == "cont":
+        s2, calls2, st2, msg2 = run(False)
+        if s._EARLYEXIT:
+            out.append(("signal/%s/cont-requests-exit" % which, "`cont` set _EARLYEXIT", case))
+        if not (common.same_vec([float(v) for v in np.ravel(s.bestSolution)], [float(v) for v in np.ravel(s2.bestSolution)])
+                and len(calls) == len(calls2) and int(s.generations) == int(s2.generations) and msg == msg2):
+            out.append(("signal/%s/cont-changes-the-run" % which, "after `cont` the run differs from the uninterrupted one: generations %d vs %d, cost calls %d vs %d, message %r vs %r"
+                        % (s.generations, s2.generations, len(calls), len(calls2), msg, msg2), case))
+    line = "C05 sig (cb %s) (script (%s))" % ("true" if has_cb else "false", " ".join(t if t in ("sol", "cont", "call", "exit") else "x" for t in norm))
+
+    def cmp(reply, case=case, st=st, s_exit=bool(s._EARLYEXIT)):
+        r = common.parse_reply(reply)
+        if r[0] != "ok":
+            return [("signal/model-%s" % r[0], "model replied %r" % (reply[:200],))]
+        d = r[1]; diffs = []
+        if int(d["consumed"]) != st["reads"]:
+            diffs.append("inputs read model=%s impl=%d" % (d["consumed"], st["reads"]))
+        if int(d["called"]) != st["cb"]:
+            diffs.append("sigint_callback calls model=%s impl=%d" % (d["called"], st["cb"]))
+        if (d["exit"] == "true") != s_exit:
+            diffs.append("exit flag model=%s impl=%s" % (d["exit"], s_exit))
+        return [("signal/handler-diverges", "; ".join(diffs))] if diffs else []
+    return out, tag, (line, cmp, case)
+
+
 # ------------------------------------------------------------------ shard
 def run_shard(pid, seed, shard, ncases, tier, extra):
     common.import_mystic()
@@ -355,6 +474,13 @@ def run_shard(pid, seed, shard, ncases, tier, extra):
                 findings.append(Finding("monitor", key, what, case))
             if req is not None:
                 wlines.append(req)
+        if pid == "C05" and k % 2 == 1:
+            res, tag, req = signal_case(rng)
+            hist[tag] = hist.get(tag, 0) + 1
+            for key, what, case in res:
+                findings.append(Finding("monitor", key, what, case))
+            if req is not None:
+                wlines.append(req)
         if pid == "C01" and k % 2 == 0:
             res, tag = ensemble_case(rng)
             hist["ensemble:" + tag] = hist.get("ensemble:" + tag, 0) + 1
@@ -367,7 +493,7 @@ def run_shard(pid, seed, shard, ncases, tier, extra):
     if wlines:
         wreps = leandrv.run_driver([w[0] for w in wlines])
         for (line, cmp, case), rep in zip(wlines, wreps):
-            hist["model:warn"] = hist.get("model:warn", 0) + 1
+            hist["model:sig" if line.startswith("C05 sig") else "model:warn"] = hist.get("model:sig" if line.startswith("C05 sig") else "model:warn", 0) + 1
             for key, what in cmp(rep):
                 c2 = dict(case); c2["request"] = line; c2["model_reply"] = rep[:400]
                 findings.append(Finding("correspondence", key, what, c2))
